@@ -14,7 +14,10 @@ from ..driver import Prop
 KINDS = ["float", "int", "text", "bool"]
 DEFAULT = {"KBool": "onoff", "KNumeric": "-", "KText": "text"}
 SAFE_OPS = ["copy", "rows", "cols", "take", "reindex", "sort_index", "astype", "fillna", "replace", "assign", "drop",
-            "concat", "merge", "concat_conflict", "describe", "pivot", "T", "dropna"]
+            "concat", "merge", "concat_conflict", "describe", "pivot", "T", "dropna",
+            # arithmetic with an operand that is not a table: outside the safe list, the unit of the result is unknown
+            "pow", "rdiv", "mul_array", "div_series"]
+ARITH = ("pow", "rdiv", "mul_array", "div_series")
 MUTS = ["unit", "dest", "name", "delcol", "addcol"]
 
 
@@ -39,7 +42,7 @@ def view(df):
         except Exception as e:
             anc = [f"{type(e).__name__}"]
     return {"name": info.metadata.name, "dests": sorted(info.metadata.destinations),
-            "units": [[str(k), str(v.unit)] for k, v in info.columns.items()], "op": op, "anc": anc}
+            "units": [[F.lab(k), str(v.unit)] for k, v in info.columns.items()], "op": op, "anc": anc}
 
 
 class Program:
@@ -72,7 +75,7 @@ class Program:
                 out[str(k)] = dict(view(df), consult_exc=type(e).__name__)
                 continue
             v = view(df)
-            v["cols"] = [] if df.empty else [[str(c), DEFAULT.get(F.dtype_code(df.dtypes.iloc[i])[0], "?")] for i, c in enumerate(df.columns)]
+            v["cols"] = [] if df.empty else [[F.lab(c), DEFAULT.get(F.dtype_code(df.dtypes.iloc[i])[0], "?")] for i, c in enumerate(df.columns)]
             out[str(k)] = v
         return out
 
@@ -170,6 +173,20 @@ class Program:
                     res = a.T
                 elif name == "dropna":
                     res = a.dropna()
+                elif name in ARITH:
+                    num = [c for c in cols if a[c].dtype.kind in "if"]
+                    if not num or n == 0:
+                        return
+                    an = a[num]
+                    del F.FIN_LOG[:]
+                    if name == "pow":
+                        res = an ** 2
+                    elif name == "rdiv":
+                        res = 1.0 / an
+                    elif name == "mul_array":
+                        res = an * np.full((n, len(num)), 1000.0)
+                    else:
+                        res = an.div(an[num[0]], axis=0)
                 wrn = [str(x.message)[:60] for x in w]
         except Exception as e:
             exc = type(e).__name__
@@ -184,14 +201,14 @@ class Program:
             except Exception as e2:
                 plain = "raised:" + type(e2).__name__
         self.flush_events()
-        rec = {"op": name, "exc": exc, "plain": plain, "conflict_possible": any(a[c].dtype.kind in "if" and dict(view(a)["units"]).get(str(c)) != "zz" for c in cols), "warned": bool(wrn),   # any warning counts: the wording is the library's business
+        rec = {"op": name, "exc": exc, "plain": plain, "conflict_possible": any(a[c].dtype.kind in "if" and dict(view(a)["units"]).get(F.lab(c)) != "zz" for c in cols), "warned": bool(wrn),   # any warning counts: the wording is the library's business
                "is_table": isinstance(res, TableDataFrame) and hasattr(res, "_table_data"),
                "src_a": keys[op["a"] % len(keys)], "src_b": keys[op["b"] % len(keys)], "before": before}
         if rec["is_table"]:
             k = self.key(res)
             self.user[k] = res
             rec["result"] = k
-            rec["result_cols"] = [[str(c), F.dtype_code(res.dtypes.iloc[i])[0]] for i, c in enumerate(res.columns)]
+            rec["result_cols"] = [[F.lab(c), F.dtype_code(res.dtypes.iloc[i])[0]] for i, c in enumerate(res.columns)]
         rec["after"] = self.views()
         if rec["is_table"]:
             rec["result_view"] = rec["after"][str(rec["result"])]
@@ -250,7 +267,7 @@ class Program:
                 c = cols[op["k"] % len(cols)]
                 if view(a)["units"][op["k"] % len(cols)][1] in ("text", "onoff"):
                     return
-                label = next(x for x in a.columns if str(x) == c)    # labels of a transposed frame are integers
+                label = next(x for x in a.columns if F.lab(x) == c)    # labels of a transposed frame are integers
                 t[label].unit = "changed"
                 act = ["AMutate", k0, ["MSetUnit", c, "changed"]]
             elif m == "dest":
@@ -263,7 +280,7 @@ class Program:
                 c = a.columns[-1]      # not necessarily a string (labels of a transposed frame)
                 del a[c]
                 t.units
-                act = ["AMutate", k0, ["MDelCol", str(c)]]
+                act = ["AMutate", k0, ["MDelCol", F.lab(c)]]
             elif m == "addcol" and "added_col" not in a.columns and len(a) > 0:
                 t.add_column("added_col", list(np.arange(len(a), dtype=float)), unit="kg")
                 act = ["AMutate", k0, ["MAddCol", "added_col", "kg"]]
@@ -426,11 +443,14 @@ class C05(Prop):
                 if op in ("copy", "rows", "cols", "take", "reindex", "sort_index", "astype", "fillna", "replace", "assign",
                           "drop"):
                     fails.append(f"lost-metadata: safe operation {op} returned a plain DataFrame")
-                elif op in ("concat", "merge") and not rec["warned"]:
+                elif op in ("concat", "merge") + ARITH and not rec["warned"]:
                     fails.append(f"silent-fallback: {op} returned a plain DataFrame without a warning")
                 continue
             rv = rec["result_view"]
             sa, sb = b[str(rec["src_a"])], b[str(rec["src_b"])]
+            if op in ARITH:
+                fails.append(f"mislabelled: the result of {op} (arithmetic with a non-table operand) is still a table, units {rv['units']}")
+                continue
             if op in ("describe", "T", "pivot"):
                 continue   # outside the safe list: a table result is judged only for aliasing
             if rv["name"] != sa["name"] or rv["dests"] != sa["dests"]:
